@@ -182,7 +182,7 @@ impl C12 {
         // cross-reference streams that share an object number, stale object-stream members)
         for k in 0..(if tier == Tier::Quick { 8 } else { 48 }) {
             let mut rng = Rng::new(run_seed(verif_seed, "C12/history-doc", k));
-            let h = crate::c02::gen_history(&mut rng, Tier::Quick);
+            let h = crate::c02::gen_history(&mut rng, Tier::Thorough);
             let spec = crate::c02::compile(&h);
             let w = crate::docgen::write_doc(&spec);
             if crate::docgen::self_check(&spec, &w).is_err() {
